@@ -31,6 +31,10 @@ pub enum Op {
         r: Vec<Res>,
         w: Vec<Res>,
     },
+    /// a whole dispatcher registered as a thread-local system (impl RunNow for Dispatcher)
+    Nest {
+        inner: Prog,
+    },
     Batch {
         /// 0: `()`, 1: Read<CtlA>, 2: Write<CtlA>, 3: (Read<CtlA>, Write<CtlB>)
         ctl: u8,
@@ -60,7 +64,7 @@ impl Prog {
             .iter()
             .map(|o| match o {
                 Op::Add { .. } | Op::Tl { .. } => 1,
-                Op::Batch { inner, .. } => 1 + inner.count_systems(),
+                Op::Batch { inner, .. } | Op::Nest { inner } => 1 + inner.count_systems(),
                 Op::Barrier => 0,
             })
             .sum()
@@ -69,7 +73,7 @@ impl Prog {
         self.ops
             .iter()
             .map(|o| match o {
-                Op::Batch { inner, .. } => 1 + inner.depth(),
+                Op::Batch { inner, .. } | Op::Nest { inner } => 1 + inner.depth(),
                 _ => 0,
             })
             .max()
@@ -88,6 +92,7 @@ impl Prog {
                     out.extend(w);
                     inner.resources(out);
                 }
+                Op::Nest { inner } => inner.resources(out),
                 Op::Barrier => {}
             }
         }
@@ -116,6 +121,7 @@ pub struct GenCfg {
     pub p_ill: f64,
     pub times: Vec<u8>,
     pub inner_tl: bool,
+    pub p_nest: f64,
 }
 
 impl GenCfg {
@@ -138,6 +144,7 @@ impl GenCfg {
             p_ill: 0.0,
             times: vec![1, 2, 3, 4, 5],
             inner_tl: false,
+            p_nest: 0.0,
         }
     }
 }
@@ -254,6 +261,20 @@ pub fn gen_prog(rng: &mut StdRng, cfg: &GenCfg, depth: usize, prefix: &str) -> P
             if rng.gen_bool(0.15) {
                 ops.push(Op::Barrier);
             }
+            continue;
+        }
+        if depth == 0 && cfg.p_nest > 0.0 && rng.gen_bool(cfg.p_nest) {
+            let mut icfg = cfg.clone();
+            icfg.n_min = 1;
+            icfg.n_max = 5;
+            icfg.p_nest = 0.0;
+            icfg.p_batch = 0.0;
+            icfg.p_tl = 0.25;
+            icfg.inner_tl = true;
+            // depth 0 for the inner generator: it is a top-level dispatcher of its own (thread-local allowed)
+            let inner = gen_prog(rng, &icfg, 0, &format!("{}n{}.", prefix, k));
+            ops.push(Op::Nest { inner });
+            k += 1;
             continue;
         }
         if x < cfg.p_barrier + cfg.p_tl && (depth == 0 || cfg.inner_tl) {
@@ -422,3 +443,44 @@ impl Variant {
         }
     }
 }
+
+/// One TLC terminal state -> program (names "n<k>", deps by name).
+pub fn prog_of_state(st: &serde_json::Value) -> (Prog, Vec<Vec<Vec<u64>>>) {
+    let regs = st["regs"].as_array().unwrap();
+    let mut ops = Vec::new();
+    let mut epoch = 0;
+    for (i, r) in regs.iter().enumerate() {
+        let e = r["e"].as_u64().unwrap();
+        if e > epoch {
+            ops.push(Op::Barrier);
+            epoch = e;
+        }
+        let nm = r["nm"].as_u64().unwrap();
+        let name = if nm == 0 { String::new() } else { format!("n{}", nm) };
+        let _ = i;
+        let deps: Vec<String> = r["d"]
+            .as_array()
+            .unwrap()
+            .iter()
+            .map(|d| {
+                // d is a system id; its name token is regs[d].nm
+                let id = d.as_u64().unwrap() as usize;
+                format!("n{}", regs[id - 1]["nm"].as_u64().unwrap())
+            })
+            .collect();
+        let v = |k: &str| -> Vec<u32> { r[k].as_array().unwrap().iter().map(|x| x.as_u64().unwrap() as u32).collect() };
+        ops.push(Op::Add {
+            r: v("r"),
+            w: v("w"),
+            deps,
+            t: r["t"].as_u64().unwrap() as u8,
+            name,
+        });
+    }
+    if st["epoch"].as_u64().unwrap() > epoch {
+        ops.push(Op::Barrier);
+    }
+    let ids: Vec<Vec<Vec<u64>>> = serde_json::from_value(st["ids"].clone()).unwrap();
+    (Prog { ops }, ids)
+}
+
